@@ -1,4 +1,4 @@
-import Minimq.Proofs.Writer
+import Minimq.Proofs.Table
 import Minimq.Directive
 /-
 C19 — invalid requests are refused locally and leave no trace; QoS capped when asked.
@@ -10,25 +10,14 @@ edit of the Rust table is an edit of what these theorems are about.
 namespace Minimq
 open Gen
 
-def ctxWhere : Ctx → Spec.Where
-  | .Publish => .publish
-  | .Subscribe => .subscribe
-  | .Unsubscribe => .unsubscribe
-  | .Disconnect => .disconnect
-  | .Will => .will
-
 /-- The crate's validation table is the specification's table (27 kinds × 5 contexts × all values):
 a well-typed property is accepted for a context exactly when MQTT 5 (table 2-4 and the value rules
 of section 3) lets a client put it there with that value. Both directions: nothing illegal is
 accepted, nothing legal is refused. -/
 theorem C19_validFor_iff_spec (c : Ctx) (p : Property) (hwf : p.wf = true) :
     p.validFor c = true ↔
-      (Spec.allowedIn (ctxWhere c) p.kind.id = true ∧ Spec.legalValue p.kind.id p.val.num = true) := by
-  obtain ⟨k, v⟩ := p
-  cases c <;> cases k <;> cases v <;>
-    simp [Property.wf, PropKind.declShape] at hwf <;>
-    dsimp only [Property.validFor, PVal.num, PropKind.id, ctxWhere] <;>
-    simp [PropKind.validValue, validCtx, Spec.allowedIn, Spec.legalValue, MAXV]
+      (Spec.allowedIn (ctxWhere c) p.kind.id = true ∧ Spec.legalValue p.kind.id p.val.num = true) :=
+  validFor_iff_spec c p hwf
 
 /-- A whole property list is accepted iff each element is legal (user-supplied lists never contain
 undecodable items). -/
